@@ -113,16 +113,33 @@ func c16Run(r *fw.R, d c16Desc) {
 		}
 		switch d.Cause {
 		case "local-close":
-			go c.Close(websocket.StatusNormalClosure, "bye")
+			if d.Seed%3 == 0 {
+				go c.Close(websocket.StatusNoStatusRcvd, "") // a Close frame with an empty payload
+			} else {
+				go c.Close(websocket.StatusNormalClosure, "bye")
+			}
 		case "concurrent-closes":
 			for i := 0; i < 3; i++ {
-				go c.Close(websocket.StatusCode(1000+i), "x")
+				code := websocket.StatusCode(1000 + i)
+				if d.Seed%3 == 0 {
+					code = websocket.StatusNoStatusRcvd
+				}
+				go c.Close(code, "")
 			}
 		case "close-crossing-peer-close":
-			go c.Close(websocket.StatusGoingAway, "crossing")
-			go peer.Send(wire.Close(wire.ClosePayload(1000, "peer")))
+			if d.Seed%3 == 0 {
+				go c.Close(websocket.StatusNoStatusRcvd, "")
+				go peer.Send(wire.Close(nil))
+			} else {
+				go c.Close(websocket.StatusGoingAway, "crossing")
+				go peer.Send(wire.Close(wire.ClosePayload(1000, "peer")))
+			}
 		case "peer-close":
-			go peer.Send(wire.Close(wire.ClosePayload(1000, "peer")))
+			if d.Seed%2 == 0 {
+				go peer.Send(wire.Close(nil)) // no status: the echo is an empty Close frame too
+			} else {
+				go peer.Send(wire.Close(wire.ClosePayload(1000, "peer")))
+			}
 		case "protocol-violation":
 			f := wire.Data(wire.OpBinary, true, []byte("violation"))
 			f.Rsv2 = true
